@@ -80,6 +80,24 @@ Theorem C09_split_epoch : forall (l u p : R) (rho t0 t1 t2 : Q) (pre r : list (e
 Proof. exact C09_split. Qed.
 Print Assumptions C09_split_epoch.
 
+(* Refinement invariance of the WHOLE density.
+   Full statement (not proved in this generality): for every skyline eps = pre ++ e :: post, every
+   cut time t1 strictly inside e, every tree, survival flag and removal probabilities (r' = r with
+   the entry of e duplicated):
+       log_prob survival r' (pre ++ e1 :: e2 :: post) tips ints = log_prob survival r eps tips ints.
+   Proved: C09_split_epoch above (the p/q part, any number of epochs), and the case below of a
+   single epoch cut in two, for EVERY tree (any tip and internal heights >= 0), cut anywhere in
+   (0, T) - also exactly on a tip time or a node time -, with and without survival conditioning,
+   without removal probability.  Missing for the full statement: the induction carrying the
+   index shift of searchsorted and of the lineage counts n_i through `pre` and `post`. *)
+Theorem C09_refinement_invariance_partial : forall (l u p : R) (rho c T : Q) survival tips ints,
+  0 < l -> 0 < u -> 0 < p -> 0 <= Q2R rho <= 1 -> 0 < Q2R c -> Q2R c < Q2R T ->
+  List.Forall (fun h => 0 <= Q2R h) tips -> List.Forall (fun h => 0 <= Q2R h) ints ->
+  log_prob NumR survival None [mkEp l u p 0%Q 0%Q c; mkEp l u p rho c T] tips ints
+  = log_prob NumR survival None [mkEp l u p rho 0%Q T] tips ints.
+Proof. exact C09_refine2. Qed.
+Print Assumptions C09_refinement_invariance_partial.
+
 (* Single epoch = constant model: with m = 1 the skyline density (log_prob) equals the density of
    BirthDeath.log_prob, which the code writes independently (other form of q0, no epochs), for
    every tree (tip and internal heights), with and without survival conditioning. *)
